@@ -17,7 +17,7 @@ RULE = ('Generator of C01 plus a mask of highpass levels passed as None. Pyramid
         'Non-trivial = J>=2 or odd size or some None level. Distinct = configuration without seeds.')
 ASSUMPTIONS = ['PyWavelets waverec/waverec2 is the reference, including its rule of dropping one '
                'trailing lowpass sample when the lowpass is one longer than the detail band',
-               'tolerance 1e-9*max(1,gain*max|c|) float64, 64*eps32*gain*max|c| float32']
+               'tolerance 1e-11*max(1,gain*max|c|) float64, 64*eps32*gain*max|c| float32']
 STRATA = {'thorough': 'every (wavelet, mode, dim) combination: 106 x 5 x 2', 'quick': ''}
 LABEL_FLOORS = {'odd': 0.25, 'J>=2': 0.3, 'some_None': 0.25, 'None_at_odd_level_with_finer_present': 0.02}
 plan = c01.plan
@@ -83,6 +83,13 @@ def ambiguous_none(mask, per_axis):
 
 
 def _inverse(case):
+    m = _inverse0(case)
+    from pytorch_wavelets import DWT1DInverse, DWTInverse
+    c01.later_sibling(case, DWT1DInverse if case['dim'] == 1 else DWTInverse, inverse=True)
+    return m
+
+
+def _inverse0(case):
     from pytorch_wavelets import DWT1DInverse, DWTInverse
     cls = DWT1DInverse if case['dim'] == 1 else DWTInverse
     msp = case.get('mode_spelling', case['mode'])
@@ -148,7 +155,7 @@ def _run_case(case):
             r.fail('%s:%s:dim%d' % (what, mode, dim), msg)
 
     rw = c01.ref_wavelet(case)
-    r.label('rescaled_filter_bank' if case.get('wave_form') == 'tuple' and case.get('fb_scale', [1.0, 1.0]) != [1.0, 1.0]
+    r.label('rescaled_filter_bank' if case.get('wave_form') in ('tuple', 'object') and case.get('fb_scale', [1.0, 1.0]) != [1.0, 1.0]
             else None)
 
     def ref(yl, yh):
@@ -187,7 +194,7 @@ def _run_case(case):
     if tuple(out.shape) != (S_ref.shape[0], 1) + S_ref.shape[1:]:
         mismatch('shape', 'output shape %s, PyWavelets %s' % (tuple(out.shape), S_ref.shape))
     else:
-        tol = (64 * core.EPS32 if f32 else 1e-9) * max(1.0, g)
+        tol = (64 * core.EPS32 if f32 else core.TOL64) * max(1.0, g)
         okc, err = core.close(dwtu.to_np(out)[:, 0], S_ref, tol)
         r.metric('operator_abs_err_' + case['dtype'], err)
         if not okc:
@@ -205,13 +212,14 @@ def _run_case(case):
     zmask = case.get('zero_mask', [0] * J)
     dyh = [np.zeros_like(h) if zmask[j] else h for j, h in enumerate(dyh)]
     r.label('explicit_zero_level' if any(z and not m_ for z, m_ in zip(zmask, mask)) else None,
-            'reused_module' if case.get('reused') and not case.get('wave_row') and dwtu.sibling(w) else None)
+            'reused_module' if case.get('reused') and not case.get('wave_row') and dwtu.sibling(w) else None,
+            'sibling_constructed_later' if case.get('later_sibling') else None)
     zyh = [np.zeros_like(h) if mask[j] else h for j, h in enumerate(dyh)]
     want = ref(dyl, zyh)
     cmax = max([core.maxabs(dyl)] + [core.maxabs(h) for h in zyh])
     # with a column subset g can underestimate the operator norm: the scale is never below the largest reference value
     scale_d = max(g * cmax, core.maxabs(want), 1e-300)
-    tol = (64 * core.EPS32 if f32 else 1e-9) * scale_d
+    tol = (64 * core.EPS32 if f32 else core.TOL64) * scale_d
     ok, out = call(dyl, dyh, True)
     if not ok:
         if any(mask):
